@@ -372,8 +372,8 @@ def bfs(ctx, cname, k, K):
     rep = c02.Rep(cname, ctx.tier, ctx.seed)
     kind = KIND[cname]
     G = rep.gens
-    depth = 2 if ctx.tier == 'quick' else 3
-    gsub = G if ctx.tier != 'quick' else G[:6]
+    depth = 2
+    gsub = G[:6] if ctx.tier == 'quick' else alph.subset(G, 16, 6)      # composition letters; every generator is a root (thorough: ~100 roots)
     seen = {}
     frontier = []
     for i, (n, v) in enumerate(G):
